@@ -417,6 +417,17 @@ static void *s_sba_alloc(struct small_block_allocator *sba, size_t size) {
     return aws_mem_acquire(sba->allocator, size);
 }
 
+/*
+ * The tag words alone do not prove that a page is ours: for a large block (served by the parent allocator) the memory at
+ * the start of its 4K page belongs to somebody else - typically a neighbouring allocation whose contents the application
+ * chooses freely, the tag value included. A page of ours also names one of this allocator's own bins.
+ */
+static bool s_sba_owns_bin(const struct small_block_allocator *sba, const struct sba_bin *bin) {
+    const uintptr_t first = (uintptr_t)&sba->bins[0];
+    const uintptr_t addr = (uintptr_t)bin;
+    return addr >= first && addr < first + sizeof(sba->bins) && (addr - first) % sizeof(struct sba_bin) == 0;
+}
+
 AWS_SUPPRESS_ASAN AWS_SUPPRESS_TSAN static void s_sba_free(struct small_block_allocator *sba, void *addr) {
     if (!addr) {
         return;
@@ -428,7 +439,7 @@ AWS_SUPPRESS_ASAN AWS_SUPPRESS_TSAN static void s_sba_free(struct small_block_al
      * heap memory, so should not cause any issues. TSan will see this as a data race, but it
      * is not, that's a false positive
      */
-    if (page->tag == AWS_SBA_TAG_VALUE && page->tag2 == AWS_SBA_TAG_VALUE) {
+    if (page->tag == AWS_SBA_TAG_VALUE && page->tag2 == AWS_SBA_TAG_VALUE && s_sba_owns_bin(sba, page->bin)) {
         struct sba_bin *bin = page->bin;
         /* BEGIN CRITICAL SECTION */
         sba->lock(&bin->mutex);
